@@ -105,7 +105,28 @@ func collectFmtFragments(input string) ([]FmtDiff, error) {
 	fmter := &fmter{}
 	fmter.diffFile(fragments)
 
-	return fmter.fragments, nil
+	return mergeSharedLines(fmter.fragments), nil
+}
+
+// mergeSharedLines joins fragments which begin on a source line an earlier
+// fragment already covers ("} a = 1"), each replacement must own its lines
+// for the result to be usable as a set of edits.
+func mergeSharedLines(fragments []FmtDiff) []FmtDiff {
+	out := make([]FmtDiff, 0, len(fragments))
+	for _, diff := range fragments {
+		if len(out) > 0 {
+			last := &out[len(out)-1]
+			if diff.FromLine < last.ToLine {
+				last.NewText += diff.NewText
+				if diff.ToLine > last.ToLine {
+					last.ToLine = diff.ToLine
+				}
+				continue
+			}
+		}
+		out = append(out, diff)
+	}
+	return out
 }
 
 type fmter struct {
